@@ -233,7 +233,7 @@ def _open_files_key():
 def _attrs_key(store):
     out = []
     for k, v in sorted(vars(store).items()):
-        if isinstance(v, (list, dict, set)):
+        if isinstance(v, (list, dict, set, env.SProxyList)):
             out.append((k, repr(v)))
     return tuple(out)
 
